@@ -60,10 +60,51 @@ async def bare_hass(allow_all_imports=False, config_dir=None):
             shutil.rmtree(config_dir, ignore_errors=True)
 
 
+class TraceLimit(BaseException):
+    """The tracer was called more often than any generated terminating program can: treated as non-termination."""
+
+
+class CaseTimeout(BaseException):
+    """Raised by the per-case interval timer (main thread only)."""
+
+
+@contextlib.contextmanager
+def time_limit(seconds, sticky_filename=None):
+    """Raise CaseTimeout in the main thread after `seconds`, and again every 0.25 s (generated programs may
+    swallow it with a bare except or a jump in a finally block).  With sticky_filename, every further line
+    executed in frames of that file raises as well, so a CPython reference run always unwinds."""
+    import signal
+
+    def handler(signum, frame):
+        if sticky_filename is not None:
+            def raiser(fr, event, arg):
+                if fr.f_code.co_filename == sticky_filename and event in ("line", "call"):
+                    raise CaseTimeout()
+                return raiser
+
+            sys.settrace(raiser)
+            f = frame
+            while f is not None:
+                if f.f_code.co_filename == sticky_filename:
+                    f.f_trace = raiser
+                f = f.f_back
+        raise CaseTimeout()
+
+    old = signal.signal(signal.SIGALRM, handler)
+    signal.setitimer(signal.ITIMER_REAL, seconds, 0.25)
+    try:
+        yield
+    finally:
+        signal.setitimer(signal.ITIMER_REAL, 0)
+        signal.signal(signal.SIGALRM, old)
+        if sticky_filename is not None:
+            sys.settrace(None)
+
+
 _ctx_seq = [0]
 
 
-async def run_pyscript(src, injected=None, name=None, timeout=20.0):
+async def run_pyscript(src, injected=None, name=None, timeout=10.0):
     """Execute `src` as a pyscript file-like unit; return (globals_dict, exception or None)."""
     from custom_components.pyscript.eval import AstEval
     from custom_components.pyscript.function import Function
@@ -78,17 +119,18 @@ async def run_pyscript(src, injected=None, name=None, timeout=20.0):
     exc = None
     try:
         ast_ctx.parse(src)
-        await asyncio.wait_for(ast_ctx.eval(), timeout)
-    except asyncio.TimeoutError:
-        raise
+        with time_limit(timeout):
+            await ast_ctx.eval()
     except BaseException as e:  # noqa: BLE001 - the property compares exception types
-        if isinstance(e, (KeyboardInterrupt, SystemExit, asyncio.CancelledError)):
+        if isinstance(e, (KeyboardInterrupt, SystemExit, asyncio.CancelledError, CaseTimeout)):
             raise
+        if isinstance(e, TraceLimit):
+            raise CaseTimeout() from None
         exc = e
     return global_ctx.global_sym_table, exc, global_ctx
 
 
-def run_cpython(src, injected=None, filename="<verif>"):
+def run_cpython(src, injected=None, filename="<verif>", cpython_timeout=2.0):
     g = dict(injected or {})
     g["__builtins__"] = __builtins__ if isinstance(__builtins__, dict) else __builtins__.__dict__
     exc = None
@@ -97,10 +139,13 @@ def run_cpython(src, injected=None, filename="<verif>"):
     except (SyntaxError, ValueError, RecursionError, MemoryError, OverflowError) as e:
         return None, e, False
     try:
-        exec(code, g)  # noqa: S102
+        with time_limit(cpython_timeout, sticky_filename=filename):
+            exec(code, g)  # noqa: S102
     except BaseException as e:  # noqa: BLE001
-        if isinstance(e, (KeyboardInterrupt, SystemExit)):
+        if isinstance(e, (KeyboardInterrupt, SystemExit, CaseTimeout)):
             raise
+        if isinstance(e, TraceLimit):
+            raise CaseTimeout() from None
         exc = e
     return g, exc, True
 
@@ -176,10 +221,14 @@ class Tracer:
     class Boom(Exception):
         pass
 
+    LIMIT = 3000
+
     def __init__(self):
         self.log = []
 
     def T(self, tag, value=None):
+        if len(self.log) >= self.LIMIT:
+            raise TraceLimit()
         self.log.append((tag, repr(canon(value))))
         return value
 
